@@ -4,10 +4,17 @@ import JrsVerif.Model.Arr
 namespace JrsVerif.Drv.C08
 open Lean JrsVerif.J JrsVerif.Arr
 
+def parseKind (j : Json) : Option LitKind :=
+  match str? j "c" with
+  | some "eager" => some .eager
+  | some "lazy" => some .lazy
+  | some "expr" => some .expr
+  | _ => none
+
 partial def parseT (j : Json) : Option T := do
   let k ← str? j "k"
   match k with
-  | "lit" => some (.lit (ints (← arr? j "xs")))
+  | "lit" => some (.lit (ints (← arr? j "xs")) (← parseKind j))
   | "range" => some (.range (← int? j "a") (← int? j "b"))
   | "slice" => some (.slice (← parseT (← val? j "t")) (optInt j "s") (optInt j "e") (optNat j "st"))
   | "cat" => some (.cat (← parseT (← val? j "a")) (← parseT (← val? j "b")))
@@ -15,6 +22,10 @@ partial def parseT (j : Json) : Option T := do
   | "rep" => some (.rep (← parseT (← val? j "t")) (← nat? j "n"))
   | "map" => some (.map (← parseT (← val? j "t")) (← bool? j "wi"))
   | "filter" => some (.filter (← parseT (← val? j "t")))
+  | "chars" => some (.chars (ints (← arr? j "xs")))
+  | "bytes" => some (.bytes (ints (← arr? j "xs")))
+  | "objvals" => some (.objvals (ints (← arr? j "xs")))
+  | "mkarr" => some (.mkarr (← nat? j "n") (optInt j "triv"))
   | _ => none
 
 def showR : R → String
@@ -22,23 +33,83 @@ def showR : R → String
   | .oob => "oob"
   | .panic => "panic"
 
+def showI : IdxR → String
+  | .val x => s!"v:{x}"
+  | .bounds => "oob"
+  | .fractional => "frac"
+  | .panic => "panic"
+
 def kind : View → String
-  | .vec _ => "vec" | .range .. => "range" | .slice .. => "slice" | .ext .. => "ext"
+  | .vec _ true => "vec-cheap" | .vec _ false => "vec-lazy" | .range .. => "range"
+  | .slice .. => "slice" | .ext .. => "ext"
   | .rev _ => "rev" | .rep .. => "rep" | .mapped .. => "mapped" | .poison => "poison"
 
-/-- `arr.probe` : {"t":term,"idx":[i..]} → model len/get, spec len/get -/
+/-- index numbers travel as `{"m": "<decimal integer>", "e": k}` meaning the double `m / 2^k` -/
+def parseIx (j : Json) : Option (Int × Nat) := do
+  let m ← (← str? j "m").toInt?
+  let e ← nat? j "e"
+  pure (m, e)
+
 def handle (op : String) (j : Json) : Option Json :=
   match op with
+  /- `arr.probe` : {"t":term,"idx":[i..],"at":bool} → len / get / get_lazy / get_cheap / is_cheap
+     of the built view (and `a[i]` through the Index arm when "at"), against the plain list.
+     `get_cheap`/`is_cheap` are representation details: no reference meaning ("*"); their
+     meaning where defined is the theorem `getCheap_eq`. -/
   | "arr.probe" =>
     match (do let t ← parseT (← val? j "t"); let idx ← arr? j "idx"; pure (t, nats idx)) with
     | none => some (bad "arr.probe: parse")
     | some (t, idx) =>
       let v := build t
       let xs := denote t
-      some (obj [
-        ("model", obj [("len", toJson (len v)), ("get", ofStrs (idx.map (fun i => showR (get v i)))),
-                       ("repr", .str (kind v))]),
-        ("spec", obj [("len", toJson xs.length), ("get", ofStrs (idx.map (fun i => showR (specGet xs i))))])])
+      let at_ := (bool? j "at").getD false
+      let m := [("len", toJson (len v)), ("get", ofStrs (idx.map (fun i => showR (get v i)))),
+                ("lazy", ofStrs (idx.map (fun i => showR (getLazy v i)))),
+                ("cheap", ofStrs (idx.map (fun i => showR (getCheap v i)))),
+                ("is_cheap", toJson (isCheap v)),
+                ("repr", .str (kind v))]
+      let s := [("len", toJson xs.length), ("get", ofStrs (idx.map (fun i => showR (specGet xs i)))),
+                ("lazy", ofStrs (idx.map (fun i => showR (specGet xs i)))),
+                ("cheap", .str "*"), ("is_cheap", .str "*")]
+      let m := if at_ then m ++ [("at", ofStrs (idx.map (fun (i : Nat) => showI (indexExpr v (i : Int) 0))))] else m
+      let s := if at_ then s ++ [("at", ofStrs (idx.map (fun (i : Nat) => showI (specIndex xs (i : Int) 0))))] else s
+      some (obj [("model", obj m), ("spec", obj s)])
+  /- `arr.index` : {"t":term,"ix":[{"m","e"}..],"strict":bool} → `a[n]` through the evaluator -/
+  | "arr.index" =>
+    match (do let t ← parseT (← val? j "t"); let ix ← arr? j "ix"; pure (t, ix.toList.filterMap parseIx)) with
+    | none => some (bad "arr.index: parse")
+    | some (t, ix) =>
+      let v := build t
+      let xs := denote t
+      let m := obj [("at", ofStrs (ix.map (fun (m, e) => showI (indexExpr v m e))))]
+      if (bool? j "strict").getD false then
+        some (obj [("model", m), ("spec", obj [("at", ofStrs (ix.map (fun (m, e) => showI (specIndex xs m e))))])])
+      else some (obj [("model", m)])
+  /- `arr.rangelen` : {"s","e","excl","idx"} → the public range constructors with ANY i32 pair;
+     the reference meaning is given only inside the domain of `rangeLen_exact` -/
+  | "arr.rangelen" =>
+    match (do let s ← int? j "s"; let e ← int? j "e"; let x ← bool? j "excl"; let idx ← arr? j "idx"; pure (s, e, x, nats idx)) with
+    | none => some (bad "arr.rangelen: parse")
+    | some (s, e, x, idx) =>
+      let v := if x then newExclusive s e else View.range s e
+      let m := obj [("len", .str (toString (len v))), ("get", ofStrs (idx.map (fun i => showR (get v i)))),
+                    ("cheap", ofStrs (idx.map (fun i => showR (getCheap v i))))]
+      -- the list `rangeSpec s hi` is not materialised (it can have 2^32 elements): its length and
+      -- elements are given in closed form (`Proofs.Arr.range_idx`)
+      let hi := if x then e - 1 else e
+      let n := (hi - s + 1).toNat
+      let sg := fun (i : Nat) => if i < n then R.val (s + (i : Int)) else R.oob
+      let inDom := if x then s ≤ e else s ≤ e + 1
+      if inDom then
+        some (obj [("model", m), ("spec", obj [("len", .str (toString n)),
+          ("get", ofStrs (idx.map (fun i => showR (sg i)))),
+          ("cheap", ofStrs (idx.map (fun i => showR (sg i))))])])
+      else some (obj [("model", m)])
+  /- `arr.mkarr_guard` : {"sz"} → does `std.makeArray(sz, f)` pass its typed-argument guard -/
+  | "arr.mkarr_guard" =>
+    match int? j "sz" with
+    | none => some (bad "arr.mkarr_guard: parse")
+    | some sz => some (obj [("model", obj [("ok", toJson (mkMakeArray sz none).isSome)])])
   | _ => none
 
 end JrsVerif.Drv.C08
